@@ -154,3 +154,12 @@ pub fn cleanup_other_fs() {
 pub fn is_full_device_link(p: &std::path::Path) -> bool {
     std::fs::symlink_metadata(p).map_or(false, |m| m.file_type().is_symlink()) && std::fs::read_link(p).map_or(false, |t| t == std::path::Path::new("/dev/full"))
 }
+
+
+/// /dev/full as it should be: a character device that refuses every write. (A tested change that unlinks and recreates
+/// its log file could replace it by a regular file if it were ever opened by name; the checks reach it through symbolic
+/// links only and look again before relying on it.)
+pub fn full_device_ok() -> bool {
+    use std::os::unix::fs::FileTypeExt;
+    std::fs::metadata("/dev/full").map_or(false, |m| m.file_type().is_char_device())
+}
